@@ -157,6 +157,22 @@ def kernel_cases(ctx):
         if r % 11 == 0:       # DC product right at the int16 / final-range boundaries
             cf[0] = rng.choice([8191, 8192, 4095, 4096, -4096, -4097, 32767, -32768]) // q[0]
         cases.append(("idctfst %s | %s" % (" ".join(map(str, cf)), " ".join(map(str, q))), "k-idctfst"))
+    # accurate inverse DCT (lane model compared, boundary predicate evaluated; no equality theorem yet)
+    for r in range(ctx.n(120, 1200)):
+        amp = rng.choice([3, 30, 200, 1023])
+        qm = rng.choice([1, 2, 8, 40, 255])
+        cf = [rng.range(-amp, amp) if rng.chance(1, 2) else 0 for _ in range(64)]
+        shape = r % 5
+        if shape == 0:
+            cf = [cf[0] or 1] + [0] * 63
+        elif shape == 1:
+            cf = cf[:8] + [0] * 56
+        elif shape == 2:
+            cf = [cf[i] if i % 8 == 0 else 0 for i in range(64)]
+        elif shape == 3:
+            cf = [cf[i] if (i % 8) + (i // 8) < 3 else 0 for i in range(64)]
+        q = [rng.range(1, qm) for _ in range(64)]
+        cases.append(("idctint %s | %s" % (" ".join(map(str, cf)), " ".join(map(str, q))), "k-idctint"))
     # accurate forward DCT on level-shifted samples (always inside the proved boundary) and on 16-bit garbage (model only)
     for r in range(ctx.n(120, 1200)):
         amp = 128 if r % 8 else rng.choice([2000, 8000, 32767])
@@ -248,6 +264,8 @@ def kernel_sig(line, stream):
         if any(abs(a * b) >= 32768 for a, b in zip(cf, qq)):
             return "idct-out-of-range-coefficients:kernel-ifast"
         return "ifast-operand-ge-8192:kernel-idct"
+    if t[0] == "idctint":
+        return "kernel:idctint:inside-boundary" if stream.endswith(":W0") else "idct-out-of-range-coefficients:kernel-islow"
     if t[0] == "fdctint":
         return "kernel:fdctint:" + ("inside-proved-boundary" if stream.endswith(":W0") else "16-bit-garbage-input")
     if t[0] == "fdctfst":
@@ -282,9 +300,9 @@ def do_kernel(ctx, exe, drv, cases, isas):
         for i, (line, stream) in enumerate(cases):
             res = lines[i]
             wflag = ""
-            if ml is not None and line.split(" ", 1)[0] in ("fdctfst", "idctfst", "fdctint") and " ; W" in ml[i]:
+            if ml is not None and line.split(" ", 1)[0] in ("fdctfst", "idctfst", "fdctint", "idctint") and " ; W" in ml[i]:
                 ml[i], wflag = ml[i].rsplit(" ; ", 1)
-            elif line.split(" ", 1)[0] in ("fdctfst", "idctfst", "fdctint"):
+            elif line.split(" ", 1)[0] in ("fdctfst", "idctfst", "fdctint", "idctint"):
                 wflag = "W1"            # no model available: do not claim more than the known finding
             parts = res.split(" ; ")[0].split(" | ")
             if len(parts) != 2 or not parts[0].startswith("S") or not parts[1].startswith("C"):
@@ -481,6 +499,10 @@ def do_codec(ctx, exe, cases):
             for ta, tb in zip(a[3:], b[3:]):
                 if ta != tb:
                     sig, why = codec_class(line, ta)
+                    if line.startswith("s ") and not a[-1].endswith(":0") and a[-1].startswith("warnings:"):
+                        # the skip lost entropy-decoder sync (C08 finding): the blocks decoded afterwards hold garbage
+                        # coefficients, i.e. the out-of-range-coefficient finding, not a new SIMD difference
+                        sig, why = "idct-out-of-range-coefficients:history-after-corrupt-data-warning", "after a corrupt-data warning"
                     ctx.violation("codec: decoded pixels differ between JSIMD_FORCENONE and %s in configuration %s (e-cases: index:pf:fastupsample,fastdct:scale; j-cases: f1 fancy / f0 plain upsampling) for %s %s" % (
                         name, ta.rsplit(":", 1)[0], describe(line), why),
                         {"mode": "codec", "case": line, "token": ta.rsplit(":", 1)[0], "none": ref[i], name: outs[name][i]}, signature=sig)
